@@ -39,7 +39,9 @@ Reasons(e) ==
       \cup (IF e.fwd = "none" \/ e.fwd \in Allowed(e) THEN {}
             ELSE {"subnet sent upstream is not the coarse subnet of the location (or the zero prefix when opted out)"})
       \cup (IF e.fwd = "none" \/ e.fwdscope = 0 THEN {} ELSE {"non-zero scope sent upstream"})
-      \cup (IF e.opt = "zero" /\ e.content # e.q THEN {"opted-out client served an answer made for a subnet"} ELSE {})
+      \* (exprc = 99 with no content at all: a failed or truncated reply carries no answer, made for nobody)
+      \cup (IF e.opt = "zero" /\ e.content # e.q /\ ~(e.exprc = 99 /\ e.content = "none")
+            THEN {"opted-out client served an answer made for a subnet"} ELSE {})
       \cup (IF e.content \in {Up(e, s) : s \in Allowed(e)} \cup {e.q} \cup (IF e.exprc = 99 THEN {"none"} ELSE {}) THEN {}
             ELSE {"answer scoped to another subnet or family, or not an answer to this question"})
       \cup (IF e.exprc = 99 /\ (~e.written \/ e.rcode # 0) THEN {}
